@@ -1,8 +1,8 @@
 // code_osap.go — ninth part of the translation: what osap.go (the OPTIMIZING suffix-array parser) needs on top of
 // the eighth part, and its topics (topicsOsap below; topics of the fifth part).  The hooks in the other files are
 // marked "code_osap.go".  Nothing here is keyed on a function, type or variable name of the repository: the
-// per-topic data are the function lists of topicsOsap and the entry of spTopics (code_opq.go) that makes
-// `(*optSuffixArrayParser).computeEdges` an opaque state-passing METHOD of topic OSAPParse.
+// per-topic data are the function lists of topicsOsap and the entries of spTopics (code_opq.go): the one that makes
+// `(*optSuffixArrayParser).computeEdges` an opaque state-passing METHOD of topic OSAPParse, and the callees of topic OSAPEdges.
 //
 //	field of function     a struct field `f func(A…) R` (A, R numeric or bool, exactly one result) is DEFUNCTIONALISED:
 //	type                  its Lean type is Int, a CODE — 0 = nil, i = the i-th (alphabetical) of the package-level
@@ -53,15 +53,12 @@
 //	opaque methods        a method listed in spTopics is no longer followed as an unexported helper of its callers
 //	                      (helperCallees) nor analysed for out parameters (markCallEffectsIface): it is a parameter.
 //
-// NOT translated: `(*optSuffixArrayParser).computeEdges`.  The first refusal is the 3-index slice expression
-// `s.edgeBuf[k:k:k+4]` stored into `s.edges[i]` (two references to the array of edgeBuf); behind it: the closure
-// `f := func(m int, seg []int32) {…}` that captures s and is handed to suffix.Segments (and SORTS the window of
-// `sa` it is given), `p := &s.edges[k]` with a local k, `*p = append(*p, e)`, `slices.Sort` (generic, outside the
-// repository), `suffix.LCP` (nil argument for a written parameter), `if edgeStats {…}` with a constant false
-// condition around fmt.Println.  notes/osap-translate.md §7 has the design that was worked out (window pattern,
-// lambda lifting, fold of the lifted closure over the log of the translated Segments with write-back of the window)
-// and its soundness conditions.  For `Parse` computeEdges is an opaque state-passing method under the hypothesis
-// `CESpec` (LzProofs/GenOSAPParse.lean), stated against the checked model `Idx.computeEdgesChk`.
+// `(*optSuffixArrayParser).computeEdges` (topic OSAPEdges) needs the constructs of the TENTH part, code_cblift.go: the
+// zero-length windows `s.edges[i] = s.edgeBuf[k:k:k+4]`, `*p = append(*p, e)` into such a window, the closure handed to
+// suffix.Segments (lambda-lifted at source level and folded over the log of the callback calls with write-back of the window
+// of `sa` it sorts), `slices.Sort` (a callee without declaration in the repository), `if edgeStats {…}` on a constant.  For
+// `Parse` (topic OSAPParse) computeEdges stays an opaque state-passing method under the hypothesis `CESpec`
+// (LzProofs/GenOSAPParseLemmas.lean); LzProofs/GenOSAPHistGo.lean discharges it for the translation (notes/osap-history.md).
 package main
 
 import (
@@ -78,6 +75,8 @@ var topicsOsap = []topic{
 		fns: methods("optSuffixArrayParser", "Parse"), part2: true},
 	{name: "OSAPInit", doc: "osap.go: optSuffixArrayParser.init, Reset, Shrink (with resetEdges)",
 		fns: methods("optSuffixArrayParser", "init", "Reset", "Shrink"), part2: true, refl: true},
+	{name: "OSAPEdges", doc: "osap.go: optSuffixArrayParser.computeEdges (with its closure f, lambda-lifted: code_cblift.go; suffix.Sort, suffix.LCP, slices.Sort are opaque state-passing parameters, suffix.Segments is the parameter that returns the log of its callback calls)",
+		fns: methods("optSuffixArrayParser", "computeEdges"), part2: true},
 }
 
 func init() {
@@ -87,6 +86,17 @@ func init() {
 	spTopics["OSAPParse"] = []spCallee{
 		// (*optSuffixArrayParser).computeEdges(): not translated (see the header); for Parse it is a parameter with the specification CESpec
 		{recv: "optSuffixArrayParser", name: "computeEdges"},
+	}
+	spTopics["OSAPEdges"] = []spCallee{
+		// suffix.Sort(t []byte, sa []int32): reads t, fills sa (suffix/k1.go)
+		{pkg: "suffix", name: "Sort", ro: []int{0}},
+		// suffix.LCP(t []byte, sa, sainv, lcp []int32): reads t and sa, fills lcp; a missing sa / sainv (nil, or of another length) is computed in a LOCAL array
+		{pkg: "suffix", name: "LCP", ro: []int{0, 1, 2}},
+		// slices.Sort (standard library, generic): the instantiation computeEdges uses
+		{pkg: "slices", name: "Sort", sig: "func Sort(x []int32)"},
+		// suffix.Segments(sa, lcp []int32, minLen, maxLen int, f func(m int, segment []int32)): its callback calls are LOGGED
+		// (translated in topic SuffixSegments); it reads lcp and len(sa) only, the callback gets the windows sa[lo:hi]
+		{pkg: "suffix", name: "Segments", logcb: true, win: 0},
 	}
 }
 
